@@ -16,7 +16,7 @@ struct KFd {
 	std::deque<int> backlog;       // client index, or -(errno) for an aborted/failed accept
 	// stream
 	int client = -1;
-	int cfg_calls = 0, cfg_fail_at = 0, cfg_fail_errno = 0;   // fault: the n-th configuration call (fcntl/getsockname/setsockopt) on this connection fails
+	int cfg_calls = 0, cfg_fail_at = 0, cfg_fail_errno = 0; int epoll_add_errno = 0;   // fault: registering this connection with the event loop fails once (ENOSPC: max_user_watches, ENOMEM)   // fault: the n-th configuration call (fcntl/getsockname/setsockopt) on this connection fails
 	// timer
 	bool armed = false; uint64_t deadline = 0; uint64_t expirations = 0; uint64_t armed_value = 0;
 	// file
@@ -56,6 +56,7 @@ struct KernelHooks {
 	virtual int on_accept(KFd &k, void *addr, unsigned *addrlen) = 0;
 	virtual void on_close(KFd &k) = 0;
 	virtual void on_timer_set(KFd &k, uint64_t ns) = 0;
+	virtual void on_timer_create_failed() {}
 	virtual void on_syscall(const char *name) = 0;     // every sim_* call: step counting, sigterm-inside-batch
 	virtual void hygiene(const std::string &rule, const std::string &detail) = 0;
 	virtual void on_log(int pri, const std::string &line) = 0;
